@@ -100,9 +100,6 @@ func checkC03(h *hx.H, c c03Case) {
 	f2 := d2format.Format(m2)
 	if f2 != f1 {
 		sig := classifyC03(c.Text, f1, "not-idempotent")
-		if sig == "not-idempotent" && strings.Contains(f1, "\\\n") {
-			sig = "not-idempotent:raw-trailing-backslash"
-		}
 		h.Failf(sig, "formatting again changes the text\n--- input\n%q\n--- formatted once\n%q\n--- formatted twice\n%q", c.Text, f1, f2)
 	}
 	h.NonTrivial(f1 != string(c.Text) || len(kinds) >= 3)
@@ -169,9 +166,7 @@ func classifyC03Text(in []byte, base string) string {
 			return true
 		})
 	}
-	if commentInArray {
-		return "not-idempotent:comment-in-array"
-	}
+	_ = commentInArray // (was a known finding, repaired)
 	hasBoard := false
 	if m != nil {
 		d2ast.Walk(m, func(n d2ast.Node) bool {
